@@ -28,12 +28,13 @@ PROPS = {
                  corpus="once", quick_n=2500, thorough_n=250000, nontrivial=nt_once,
                  rule="implementation-driven random gate-level histories of one promise.Once (Resolve calls incl. pre-cancelled contexts, "
                       "critical sections of callers and of the callback goroutine one at a time, context cancellations of waiters and of "
-                      "the spawner, callback outcomes value/error/Canceled) + corpus; distinct = distinct event sequence; non-trivial = "
+                      "the spawner incl. the starter of a running callback while others wait, callback outcomes value / error / Canceled / "
+                      "non-zero value together with an error) + corpus; distinct = distinct event sequence; non-trivial = "
                       ">= 8 events, a caller observed blocked and a callback entered"),
             dict(name="memo", pkg="./oncex", test="TestMemo", coq_mod="Once.Spec", run_check="run_check_memo",
                  corpus="memo", quick_n=1500, thorough_n=100000, nontrivial=nt_memo,
                  rule="random histories of one memo.MemoizeFunc (calls before, while and after the harness-owned function runs, "
-                      "value/error outcome) + corpus; distinct = distinct event sequence; non-trivial = >= 3 events and a caller observed blocked"),
+                      "outcome value / error / non-zero value together with an error) + corpus; distinct = distinct event sequence; non-trivial = >= 3 events and a caller observed blocked"),
         ],
         trusted=SCHED_TRUSTED + [
             "memo.MemoizeFunc has no schedule point of its own: the harness cannot interleave two callers between the atomic swap and "
@@ -43,6 +44,12 @@ PROPS = {
             "the harness realises the eager schedule (woken waiters run to their next gate at once); the theorems cover every placement of wake-ups",
             "when both cases of the select in Promise.Await are ready (caller cancelled while parked before the section, promise already resolved) "
             "the Go runtime chooses; the choice is read off the result and passed to the model as an argument of the event",
+            "reading of 'a caller whose own context is cancelled gets context.Canceled without preventing other callers from obtaining a result' "
+            "(monitor clause 9): a caller whose own context is live is never handed the error of an invocation whose starter's context was already "
+            "cancelled when that invocation's callback returned (observable because the harness cancels at gates); a cancellation that arrives after "
+            "the callback has returned is not covered by the clause (the code retries there too, up to its ctx.Err() test)",
+            "a (value, error) result is observed as one integer value<<20 + error id; Once hands (zero value, error) to its callers whatever value "
+            "the callback returned with the error (compared through the correspondence), MemoizeFunc hands the pair on unchanged (clause 7)",
             "liveness stated as quiescence safety: in no state without enabled internal steps is a caller blocked on a resolved or orphaned promise, or blocked with a cancelled context",
             "reading of 'every Resolve with a live context, concurrent or later, returns that value': a waiter that joined an EARLIER failed attempt may "
             "still be handed that attempt's error after a later attempt has succeeded (the failed attempt's SetResult is delayed); every Resolve "
@@ -54,8 +61,9 @@ PROPS = {
                  "callback outcomes) and of an operation-level model of memo.MemoizeFunc (swap, function, result write, close, read as separate steps): "
                  "at most one callback invocation in user code; a successful promise is never cleared, no callback starts afterwards and late callers "
                  "return that value; a failed attempt is detached before it is delivered, so later Resolves obtain their result from a later invocation; "
-                 "Canceled only for callers whose own context is cancelled; quiescence: no caller blocked on a resolved/orphaned promise; memo: exactly one "
-                 "function call, result published before done is closed and never rewritten, every return value is that call's result. Models tied to the code "
+                 "Canceled only for callers whose own context is cancelled; a live caller never receives the error of an invocation whose starter was already "
+                 "cancelled when the callback returned; quiescence: no caller blocked on a resolved/orphaned promise; memo: exactly one "
+                 "function call, result published before done is closed and never rewritten, every return is that call's full (value, error) result. Models tied to the code "
                  "by scheduled differential correspondence (synctest, promise.VerifHook sites 1-3, harness-owned callback) and monitors on the observed traces; "
                  "for every event list the monitors report nothing on the models' own observations (c16_once_model_satisfies_monitors, "
                  "c16_memo_model_satisfies_monitors: unbounded simulation between monitor state and model state).",
